@@ -33,6 +33,34 @@ FUNCS = {
 }
 
 
+def annotation_only_missing(fn):
+    """names that occur only in annotations of the function's local variables and exist neither in its module nor among the
+    builtins: symtable lists them as globals the function refers to, but Python never evaluates the annotation of a local -
+    the function does not read them"""
+    import ast
+    import textwrap
+    tree = ast.parse(textwrap.dedent(inspect.getsource(fn))).body[0]
+    in_ann, elsewhere = set(), set()
+
+    def walk(node, ann):
+        for ch in ast.iter_child_nodes(node):
+            if isinstance(ch, (ast.FunctionDef, ast.AsyncFunctionDef, ast.Lambda, ast.ClassDef)):
+                continue
+            if isinstance(node, ast.AnnAssign) and ch is node.annotation:
+                walk_names(ch, True)
+            else:
+                if isinstance(ch, ast.Name):
+                    (in_ann if ann else elsewhere).add(ch.id)
+                walk(ch, ann)
+
+    def walk_names(node, ann):
+        if isinstance(node, ast.Name):
+            in_ann.add(node.id)
+        walk(node, True)
+    walk(tree, False)
+    return {n for n in in_ann - elsewhere if n not in fn.__globals__ and not hasattr(builtins, n)}
+
+
 def comprehension_only(fn):
     """names whose only binding sites are comprehension targets: a comprehension is a scope of its own (since Python 3.12
     symtable lists them among the locals of the enclosing function because comprehensions are inlined - an
@@ -147,6 +175,9 @@ def main():
                     nested.add(s.get_name())
         env = {fname: fn}
         plain_names = plainly_assigned(fn)
+        for n in annotation_only_missing(fn):
+            if fx.get(n) == "global":
+                fx[n] = "absent"
         for n in comprehension_only(fn):
             if fx.get(n) == "local":
                 del fx[n]
